@@ -142,7 +142,10 @@ func checkC15(r *Report, known []Finding) {
 			{"sparse-dot", nfa.CompilerConfig{UTF8: true, UseRuneStates: true, MaxRecursionDepth: 100}, 0x10FFFF},
 			{"ascii-only", nfa.CompilerConfig{UTF8: true, ASCIIOnly: true, MaxRecursionDepth: 100}, 127},
 		}
-		for _, m := range modes {
+		for mi, m := range modes {
+			if r.Tier != "thorough" && mi == 1 && c != "." && c != "(?s:.)" && !strings.HasPrefix(c, `[^`) && len(c)%4 != 0 {
+				continue // sparse-dot mode only changes how dot-like constructs are compiled; sampled for the rest in the quick tier
+			}
 			var n *nfa.NFA
 			if guard(20*time.Second, func() string {
 				var err error
